@@ -29,7 +29,7 @@
 #define MAXTH 16
 
 enum { EV_SEC_BEGIN = 1, EV_SEC_END, EV_SYNC_ENT, EV_SYNC_RET };
-enum { CF_GP_WAITED = 0, CF_SYNC_CONCURRENT = 1, CF_NESTED = 2, CF_SIG_IN_LIB = 3, CF_REG_DURING_GP = 4, CF_HANDLER_SEC = 5, CF_BP_GROW = 6 };
+enum { CF_GP_WAITED = 0, CF_SYNC_CONCURRENT = 1, CF_NESTED = 2, CF_SIG_IN_LIB = 3, CF_REG_DURING_GP = 4, CF_HANDLER_SEC = 5, CF_BP_GROW = 6, CF_SOLO_DURING_GP = 7 };
 
 struct node { unsigned long gen, chk; };
 
@@ -201,16 +201,17 @@ static void on_signal(int tid)
 static NS void set_registered(int v) { me_ts()->registered = v; if (sync_active) ds_flag(CF_REG_DURING_GP); }
 static NS void set_online(int v) { me_ts()->online = v; }
 
-enum { OP_REG, OP_UNREG, OP_LOCK, OP_UNLOCK, OP_READ, OP_SYNC, OP_QS, OP_OFFLINE, OP_ONLINE, OP_YIELD, OP_SPAWN, OP_JOIN, OP_BAD };
+enum { OP_REG, OP_UNREG, OP_LOCK, OP_UNLOCK, OP_READ, OP_SYNC, OP_QS, OP_OFFLINE, OP_ONLINE, OP_YIELD, OP_SPAWN, OP_JOIN, OP_GATE, OP_BAD };
 static NS int fetch(int t, int i, long *a0)
 {
-	static const char *names[] = { "reg", "unreg", "lock", "unlock", "read", "sync", "qs", "offline", "online", "yield", "spawn", "join" };
+	static const char *names[] = { "reg", "unreg", "lock", "unlock", "read", "sync", "qs", "offline", "online", "yield", "spawn", "join", "gate" };
 	const struct ds_op *o = ds_op(t, i);
 	*a0 = o->a[0];
 	for (int k = 0; k < OP_BAD; k++) if (!strcmp(o->name, names[k])) return k;
 	ds_bad_case("gp: unknown op %s", o->name);
 }
 static NS int my_online(void) { return me_ts()->online; }
+static NS int get_sync_active(void) { return sync_active; }
 
 static void *thread_main(void *arg)
 {
@@ -234,8 +235,9 @@ static void *thread_main(void *arg)
 #ifndef FL_BP
 			lib_enter(); F(unregister_thread)(); lib_exit();
 #endif
-		} else if (op == OP_LOCK) do_lock();
-		else if (op == OP_UNLOCK) do_unlock();
+		} else if (op == OP_GATE) { ds_solo_gate(); if (get_sync_active()) ds_flag(CF_SOLO_DURING_GP); }
+		else if (op == OP_LOCK) { ds_solo_op_begin(); do_lock(); ds_solo_op_end("rcu_read_lock()", ds_cfg("solo_bound", 60)); }
+		else if (op == OP_UNLOCK) { ds_solo_op_begin(); do_unlock(); ds_solo_op_end("rcu_read_unlock()", ds_cfg("solo_bound", 60)); }
 		else if (op == OP_READ) {
 			do_read((int)a0);
 #ifdef FL_BP
